@@ -11,7 +11,9 @@ RULE = ('engine scenarios biased to streams that end (exit / close / hang-up) or
         'raises exactly pexpect.EOF/TIMEOUT (type identity; any other exception is a violation); before == all pending text; '
         'after is the class; match/match_index as documented; an occurrence in the searchable pending text beats EOF/TIMEOUT '
         '(naive model); after EOF pending is empty and later calls are EOF again within 0.5 virtual s, never TIMEOUT, never a '
-        'hang. Non-trivial: >=1 read consumed or fault fired; distinct by trace digest')
+        'hang; on an EOF/TIMEOUT outcome, listed or raised, before is all the pending text (C04.bookkeeping); transport errors that are '
+        'not end-of-stream (socket reset) pass through unchanged. Generator additions as for C01-C03 (attribute changes between calls, '
+        'EINTR, > 1024 descriptors, ignorecase). Non-trivial: >=1 read consumed or fault fired; distinct by trace digest')
 
 
 def spec(pid):
